@@ -297,6 +297,9 @@ pub enum COp {
     /// enough for the added reservation: it expands into the hole (the thread switches to
     /// the dedicated region "hx")
     ExpandHole,
+    /// the same, but the hole is the last thing in the file and is used up entirely (the
+    /// thread switches to the dedicated region "hy")
+    ExpandTail,
     Truncate,
     Rename,
     Remove,
@@ -310,12 +313,13 @@ pub enum COp {
     SetMinRegions,
 }
 
-pub const ALL_COPS: [COp; 16] = [
+pub const ALL_COPS: [COp; 17] = [
     COp::WriteFits,
     COp::Relocate,
     COp::GrowFile,
     COp::ExtendLast,
     COp::ExpandHole,
+    COp::ExpandTail,
     COp::Truncate,
     COp::Rename,
     COp::Remove,
@@ -358,6 +362,10 @@ fn run_cop(w: &World, k: usize, op: COp, model: &mut Option<Vec<u8>>, name: &mut
         *name = "hx".to_string();
         *model = Some(pattern(31, 0, 100));
     }
+    if op == COp::ExpandTail && name != "hy" {
+        *name = "hy".to_string();
+        *model = Some(pattern(33, 0, 100));
+    }
     let fresh_from = model.as_ref().map_or(0, |m| m.len());
     let region = || w.db.get_region(name).ok_or_else(|| "region missing".to_string());
     let needs_region = !matches!(
@@ -378,6 +386,13 @@ fn run_cop(w: &World, k: usize, op: COp, model: &mut Option<Vec<u8>>, name: &mut
             m.extend_from_slice(&d);
             at += 5000;
             let _ = at;
+        }
+        COp::ExpandTail => {
+            let r = region()?;
+            let m = model.as_mut().ok_or("no model")?;
+            let d = pattern(33, m.len(), 5000);
+            r.write(&d).map_err(e)?;
+            m.extend_from_slice(&d);
         }
         COp::ExpandHole => {
             let r = region()?;
@@ -496,7 +511,9 @@ fn run_cop(w: &World, k: usize, op: COp, model: &mut Option<Vec<u8>>, name: &mut
 /// Regions t0,x0,t1,x1,... (100 bytes each, flushed): every t{k} has a neighbour behind it.
 /// With `hole`: additionally hx (100 bytes, one page reserved) directly followed by a flushed
 /// 8 KiB hole.
-fn region_world(dir: &Path, n_threads: usize, hole: bool) -> World {
+/// With `tail`: additionally hy (one page reserved) as the last region, followed by a flushed
+/// one-page hole that ends the file (and no other hole, so that new regions go to the end).
+fn region_world(dir: &Path, n_threads: usize, hole: bool, tail: bool) -> World {
     let db = Database::open(dir).expect("open");
     for k in 0..n_threads {
         let r = db.create_region_if_needed(&format!("t{k}")).unwrap();
@@ -512,9 +529,21 @@ fn region_world(dir: &Path, n_threads: usize, hole: bool) -> World {
     }
     let last = db.create_region_if_needed("last").unwrap();
     last.write(&pattern(30, 0, 100)).unwrap();
+    if tail {
+        // behind everything else: hy (one page reserved) and a one-page hole that ends the file
+        let hy = db.create_region_if_needed("hy").unwrap();
+        hy.write(&pattern(33, 0, 100)).unwrap();
+        let gapt = db.create_region_if_needed("gapt").unwrap();
+        gapt.write(&pattern(34, 0, 100)).unwrap();
+    }
     db.flush().unwrap();
     if hole {
         db.remove_region("gap").unwrap();
+    }
+    if tail {
+        db.remove_region("gapt").unwrap();
+    }
+    if hole || tail {
         db.flush().unwrap();
     }
     World {
@@ -544,7 +573,7 @@ pub fn region_program_with(ops: Vec<Vec<COp>>, verify: bool) -> Program {
         ("compact", &[COp::Compact, COp::BgCompact][..]),
         ("growth", &[COp::GrowFile][..]),
         ("extend_last", &[COp::ExtendLast][..]),
-        ("expand_hole", &[COp::ExpandHole][..]),
+        ("expand_hole", &[COp::ExpandHole, COp::ExpandTail][..]),
         ("create", &[COp::Create][..]),
         ("remove", &[COp::Remove][..]),
         ("relocate", &[COp::Relocate][..]),
@@ -555,6 +584,7 @@ pub fn region_program_with(ops: Vec<Vec<COp>>, verify: bool) -> Program {
     }
     let class: &'static str = Box::leak(format!("{};", flags.join(";")).into_boxed_str());
     let with_hole = ops.iter().flatten().any(|o| *o == COp::ExpandHole);
+    let with_tail = ops.iter().flatten().any(|o| *o == COp::ExpandTail);
     let spec = format!(
         "region:{verify}:{}",
         ops.iter().map(|t| t.iter().map(|o| format!("{o:?}")).collect::<Vec<_>>().join("+")).collect::<Vec<_>>().join("|")
@@ -565,7 +595,7 @@ pub fn region_program_with(ops: Vec<Vec<COp>>, verify: bool) -> Program {
         name,
         spec,
         locks_only: !verify,
-        setup: Box::new(move |d| region_world(d, n, with_hole)),
+        setup: Box::new(move |d| region_world(d, n, with_hole, with_tail)),
         bodies: Box::new(move |_w| {
             ops2.iter()
                 .enumerate()
@@ -1052,6 +1082,10 @@ pub fn plan(property: &str, tier: &str) -> Vec<Job> {
             // a region expands into the hole behind it while others allocate, flush or compact
             for b in [COp::Create, COp::Relocate, COp::Flush, COp::Compact] {
                 jobs.push(job(vec![vec![COp::ExpandHole, COp::Reader], vec![b, COp::Reader]], if quick { 1 } else { 3 }, true, if quick { 300 } else { 20000 }));
+            }
+            // ... and into the hole that ends the file, which it uses up entirely
+            for b in [COp::Create, COp::Relocate] {
+                jobs.push(job(vec![vec![COp::ExpandTail, COp::Reader], vec![b, COp::Reader]], if quick { 1 } else { 3 }, true, if quick { 300 } else { 20000 }));
             }
             for a in [COp::Relocate, COp::GrowFile] {
                 for b in [COp::Flush, COp::Compact, COp::RegionFlush] {
